@@ -163,7 +163,7 @@ impl Property for Attribution {
 pub fn check() -> Check {
     Check {
         id: "C02",
-        parts: vec![Box::new(Gen(Attribution))],
+        parts: vec![Box::new(Gen(Attribution)), Box::new(Gen(crate::hyph::HyphenLines { name: "hyphen-positional-attribution" }))],
         assumptions: vec![
             "the expected observation is computed from the intended invocation by the rules documented on Arg / ArgMatches \
              (index_of/indices_of, ArgAction, value_delimiter, value_terminator, default_missing_value), never by parsing argv"
